@@ -236,13 +236,26 @@ def check_own_colour(prog: Program, res: Result) -> None:
     fs = _fn(prog, "stereo_morgan_generator")
     txt = ast.unparse(fs.node)
     inst = "stereo_morgan_generator: synthesised descriptor starts with the atom"
-    m = re.search(r"fake_stereo_atoms = \((\w+), \*smg\.bonded_to\(\1\)\)", txt)
-    if m:
-        res.ok("R-OWN-COLOUR", inst, fs.loc())
+    syn = [n for n in ast.walk(fs.node) if isinstance(n, ast.Assign)
+           and isinstance(n.value, ast.Tuple)
+           and any(isinstance(x, ast.Starred) and "bonded_to(" in norm(x)
+                   for x in n.value.elts)]
+    if not syn:
+        res.unrecognised("R-OWN-COLOUR", inst, fs.loc(),
+                         "synthesised (atom, *bonded_to(atom)) tuple")
     else:
-        res.bad("R-OWN-COLOUR", f"{fs.short}: fake_stereo_atoms", fs.loc(),
-                f"{inst}: `fake_stereo_atoms = (atom, *smg.bonded_to(atom))` "
-                "not found", instance=inst)
+        v = syn[0].value
+        star = next(x for x in v.elts if isinstance(x, ast.Starred))
+        who = norm(star.value.args[0]) if isinstance(
+            star.value, ast.Call) and star.value.args else "?"
+        if norm(v.elts[0]) == who:
+            res.ok("R-OWN-COLOUR", inst, fs.loc(syn[0]))
+        else:
+            res.bad("R-OWN-COLOUR", f"{fs.short}: {norm(syn[0], 70)}",
+                    fs.loc(syn[0]), f"{inst}: `{norm(syn[0], 80)}` does not "
+                    f"put `{who}` itself at position 0, the only position "
+                    "the synthesised permutations keep fixed: the atom's own "
+                    "colour is permuted away", instance=inst)
     inst = "stereo_morgan_generator: synthesised permutations fix position 0"
     if re.search(r"perm_group = tuple\(\(\(0, \*perm\) for perm in perm_gen\)\)",
                  txt) and re.search(
@@ -250,8 +263,8 @@ def check_own_colour(prog: Program, res: Result) -> None:
             txt):
         res.ok("R-OWN-COLOUR", inst, fs.loc())
     else:
-        res.bad("R-OWN-COLOUR", f"{fs.short}: perm_group", fs.loc(),
-                f"{inst}: pattern not found", instance=inst)
+        res.unrecognised("R-OWN-COLOUR", inst, fs.loc(),
+                         "construction of the synthesised permutation group")
     inst = "stereo_morgan_generator: every atom gets an atom-stereo contribution"
     if "atoms_without_atom_stereo = set(smg.atoms) - atoms_with_atom_stereo" in txt \
             and "for atom in atoms_without_atom_stereo" in txt:
@@ -457,6 +470,19 @@ def check_stop_invariant(prog: Program, res: Result) -> None:
 
 
 # ---------------------------------------------------------------------------
+def _gen_kw(res, w, gen, inst):
+    kws = [k for n in ast.walk(w.node) if isinstance(n, ast.Call)
+           for k in n.keywords if k.arg == "generator"]
+    if not kws:
+        res.unrecognised("R-ROLE-AXIS", inst, w.loc(), "no generator= keyword")
+    elif norm(kws[0].value) == gen:
+        res.ok("R-ROLE-AXIS", inst, w.loc())
+    else:
+        res.bad("R-ROLE-AXIS", f"{w.short}: generator={norm(kws[0].value)}",
+                w.loc(), f"{inst}: it passes generator={norm(kws[0].value)}",
+                instance=inst)
+
+
 def check_roles(prog: Program, res: Result) -> None:
     res.rule("R-ROLE-AXIS", "_reaction_generator refines reactant(), "
              "product() and _ts() of the reaction (in a fixed order) and "
@@ -481,33 +507,36 @@ def check_roles(prog: Program, res: Result) -> None:
                 instance=inst)
     txt = ast.unparse(fi.node)
     inst = f"{fi.short}: colour k copied to stacked[..., k]"
-    if "for axis, it in enumerate(color_iters)" in txt and \
-            "np.copyto(stacked[..., axis], color)" in txt and \
-            "color = next(it)" in txt:
-        res.ok("R-ROLE-AXIS", inst, fi.loc())
+    cps = [n for n in ast.walk(fi.node) if isinstance(n, ast.Call)
+           and call_name(n) == "np.copyto" and len(n.args) == 2
+           and isinstance(n.args[0], ast.Subscript)]
+    loops_ = [l for l in ast.walk(fi.node) if isinstance(l, ast.For)
+              and norm(l.iter) == "enumerate(color_iters)"
+              and isinstance(l.target, ast.Tuple)]
+    if cps and loops_:
+        axis = norm(loops_[0].target.elts[0])
+        sl = cps[0].args[0].slice
+        last = norm(sl.elts[-1]) if isinstance(sl, ast.Tuple) else norm(sl)
+        if last == axis:
+            res.ok("R-ROLE-AXIS", inst, fi.loc(cps[0]))
+        else:
+            res.bad("R-ROLE-AXIS", f"{fi.short}: {norm(cps[0], 70)}",
+                    fi.loc(cps[0]), f"{inst}: colour k is copied to position "
+                    f"`{last}`, not to the role index `{axis}`", instance=inst)
     else:
-        res.bad("R-ROLE-AXIS", f"{fi.short}: stacking", fi.loc(),
-                f"{inst}: pattern not found", instance=inst)
+        res.unrecognised("R-ROLE-AXIS", inst, fi.loc(), "stacking loop")
     for wrapper, gen in (("reaction_morgan_generator", "morgan_generator"),
                          ("stereo_reaction_morgan_generator",
                           "stereo_morgan_generator")):
         w = _fn(prog, wrapper)
         inst = f"{wrapper} uses {gen}"
-        if f"generator={gen}" in ast.unparse(w.node).replace(" ", ""):
-            res.ok("R-ROLE-AXIS", inst, w.loc())
-        else:
-            res.bad("R-ROLE-AXIS", f"{wrapper} generator", w.loc(),
-                    f"{inst}: not found", instance=inst)
+        _gen_kw(res, w, gen, inst)
     for k, gen in (("mg", "morgan_generator"), ("smg", "stereo_morgan_generator"),
                    ("crg", "reaction_morgan_generator"),
                    ("scrg", "stereo_reaction_morgan_generator")):
         w = _fn(prog, f"color_refine_{k}")
         inst = f"color_refine_{k} refines with {gen}"
-        if f"generator={gen}" in ast.unparse(w.node).replace(" ", ""):
-            res.ok("R-ROLE-AXIS", inst, w.loc())
-        else:
-            res.bad("R-ROLE-AXIS", f"color_refine_{k} generator", w.loc(),
-                    f"{inst}: not found", instance=inst)
+        _gen_kw(res, w, gen, inst)
 
 
 # ---------------------------------------------------------------------------
